@@ -56,6 +56,7 @@ structure CtxW where
   cid : Nat
   tok : Nat
   cancelled : Bool := false
+  cancelledEarly : Option Nat := none   -- cancelled at that time while the term was in progress and the callback running
   cbRunning : Bool := true
   termEnded : Bool := false
   deriving Repr, DecidableEq, Inhabited
@@ -71,6 +72,8 @@ structure InstW where
   lastCbPromote : Bool := false -- the last callback dispatched was a promotion
   stopsInProgress : Nat := 0
   everStarted : Bool := false
+  startedAt : Nat := 0
+  candidateSince : Nat := 0     -- latest of: Start, last loss of leadership, healing of a partition
   stoppedSince : Option Nat := none   -- a stop returned ok at that time and no Start was called since
   stopCalledSince : Option Nat := none
   lastTo : Nat := 1             -- to-state of the last recorded transition (CANDIDATE right after Start)
@@ -80,6 +83,14 @@ structure InstW where
   ctxs : List CtxW := []
   healthRun : Nat := 0          -- consecutive unhealthy results in the current term
   cut : Bool := false           -- crashed / partitioned
+  recentCalls : List Nat := []  -- times of the store calls of the last 100 ms (C13: no spinning)
+  -- heartbeat bookkeeping (C03)
+  hbPending : Option (Nat × Nat) := none   -- (op id, call time) of the refresh attempt in flight
+  hbLastOkStart : Nat := 0      -- start of the last successful refresh (or of the acquiring write)
+  hbFails : Nat := 0            -- consecutive failed refresh attempts
+  lostAt : Option Nat := none   -- the record was replaced / deleted / expired underneath at that time (while leading)
+  demoteDue : Option (Nat × String) := none  -- the instance must have stopped claiming by then (and why)
+  lastHealthAt : Option (Nat × Bool) := none -- time and result of the latest health check of the current term
   discAt : Option Nat := none   -- latest disconnect notification
   graceDue : Option Nat := none -- the instant the grace mechanism must demote (latest disconnect + G), while the obligation is open
   verifyOpen : Option (Nat × Bool) := none  -- reconnect notification at that time while leading; still "record never mine since"
@@ -105,9 +116,17 @@ structure World where
   fails : List Fail := []        -- newest first
   storeMismatch : List String := []
   ended : Bool := false
+  cov : List (String × Nat) := []            -- how often each property's trigger occurred (coverage, not a verdict)
+  vacantSince : List (String × Nat) := []   -- keys without a live record, since when (C06)
+  ownerSince : List (String × Int × Nat) := []  -- per key: id in the live record (map view) and since when it has been that id
   deriving Repr, Inhabited
 
 namespace World
+
+def hit (w : World) (name : String) : World :=
+  match w.cov.lookup name with
+  | some n => { w with cov := (name, n + 1) :: w.cov.filter (·.1 != name) }
+  | none => { w with cov := (name, 1) :: w.cov }
 
 def inst? (w : World) (i : Nat) : Option InstW := w.insts.find? (·.cfg.id = i)
 
